@@ -33,7 +33,9 @@ PREFIXES = ["- ", "o ", "o P1 ", "x P3 240601 ", "- 240601 ", "~ ", "< P0 ", "  
 
 
 def decorate(rng, t):
-    return rng.choice(["%s", "%s", "%s", "(%s)", "%s.", "%s,", "(%s),", "%s;", "%s:", "%s?", "%s!"]) % t
+    return rng.choice(["%s", "%s", "%s", "(%s)", "%s.", "%s,", "(%s),", "%s;", "%s:", "%s?", "%s!",
+                       # the punctuation set is stripped on both sides, whatever the character
+                       ",%s", ":%s:", "%s(", ".%s", ")%s", "?%s!", ";%s", "!%s("]) % t
 
 
 def gen_line(rng):
